@@ -25,7 +25,8 @@ try:
     tot = 0
     for p in props:
         ctx, ran = engine.run_rules(facts, p, 'quick')
-        bad = [r for r in ctx.results if not r.ok]
+        known, _ = engine.load_known('/verif/known_findings.txt')
+        bad = [r for r in ctx.results if not r.ok and (p, r.key.replace(' ', '_')) not in known]
         tot += len(bad)
         print('%s: %d instances, %d failing' % (p, len(ctx.results), len(bad)))
         for r in bad:
